@@ -225,6 +225,13 @@ class FloatLiteral(Literal[float]):
 
     __slots__ = ()
 
+    def __str__(self) -> str:
+        # `repr(1e16)` is "1e+16", which would be read back as an integer.
+        mantissa, exp, exponent = repr(self.value).lower().partition("e")
+        if exp and "." not in mantissa:
+            mantissa += ".0"
+        return mantissa + exp + exponent
+
 
 class RegexLiteral(Literal[Pattern[str]]):
     """A regex literal."""
